@@ -164,10 +164,13 @@ ResOK(v, D) ==
           ELSE IF Len(v.vals) = 1 THEN v.res[1].t = "str" /\ v.res[1].v = <<Unq(v.vals[1], D)>>
           ELSE v.res[1].t = "list" /\ v.res[1].v = [i \in 1..Len(v.vals) |-> Unq(v.vals[i], D)]
 
-Holds13(v) == WireOK(v) /\ ResOK(v, {})
+\* v.cut > 0: the last v.cut bytes of the reply (all of them inside its final line) never arrive - the connection is lost
+\* instead: the call fails; a value made from the part that did arrive is not what Tor said
+Failed(v) == Len(v.res) = 1 /\ v.res[1].t = "error"
+Holds13(v) == IF v.cut > 0 THEN WireOK(v) /\ Failed(v) ELSE WireOK(v) /\ ResOK(v, {})
 DevSets == {D \in SUBSET Dev : D # {}}
 Explains13(v) ==
-  IF WireOK(v) /\ \E D \in DevSets : ResOK(v, D)
+  IF v.cut = 0 /\ WireOK(v) /\ \E D \in DevSets : ResOK(v, D)
   THEN CHOOSE D \in DevSets : ResOK(v, D) /\ \A E \in DevSets : ResOK(v, E) => Cardinality(D) <= Cardinality(E)
   ELSE {}
 =============================================================================
